@@ -444,4 +444,17 @@ theorem ver_run_filter (pr : Inval.Proto P C) (ops : List (Inval.Op P C)) (s s' 
 
 end protocol
 
+/-! ### sorting -/
+
+theorem sorted_eq_of_perm (l₁ l₂ : List α) (h : l₁.Perm l₂) :
+    l₁.mergeSort (fun a b => decide (a ≤ b)) = l₂.mergeSort (fun a b => decide (a ≤ b)) := by
+  apply List.Perm.eq_of_pairwise (le := fun a b => decide (a ≤ b) = true)
+  · intro a b _ _ h1 h2; exact le_antisymm (by simpa using h1) (by simpa using h2)
+  · exact List.pairwise_mergeSort (fun a b c h1 h2 => by simp at *; exact le_trans h1 h2)
+      (fun a b => by simp; exact le_total a b) l₁
+  · exact List.pairwise_mergeSort (fun a b c h1 h2 => by simp at *; exact le_trans h1 h2)
+      (fun a b => by simp; exact le_total a b) l₂
+  · exact ((List.mergeSort_perm l₁ _).trans h).trans (List.mergeSort_perm l₂ _).symm
+
+
 end Cherab.Lemmas.Instruments
